@@ -438,6 +438,11 @@ def record_natural(seed, chans, initwin, pktsize, nwrites=6, maxwrite=None,
     orig_start()
     p = w.pair
     p.auto()
+    if 'rekey' in mode:
+        # key re-exchanges all along (every few packets, started by either
+        # side): packets held back while one runs go out afterwards, in order
+        p.conn._rekey_bytes = rng.choice([1, 30, 90, 150 + rng.randrange(200)])
+        p.sconn._rekey_bytes = rng.choice([1, 30, 90, 150 + rng.randrange(400)])
     # wrap the client sessions' data_received with the self-pause hook
     for ch in chans:
         sess = w.cchan[ch]._session
